@@ -74,7 +74,8 @@ Fixpoint lookup_b {A} (k : bytes) (l : list (bytes * A)) : option A :=
 Fixpoint add_atoms (seen : list bytes) (atoms : list bytes) : option (list bytes) :=
   match atoms with
   | [] => Some seen
-  | a :: r => if memb a seen then None else add_atoms (seen ++ [a]) r
+  | a :: r => if memb a seen then add_atoms seen r      (* an atom entered twice is harmless: the first entry stays *)
+              else add_atoms (seen ++ [a]) r
   end.
 Fixpoint add_afiles (env : renv) (seen : list bytes) (files : list bytes) : option (list bytes) :=
   match files with
